@@ -1,6 +1,7 @@
 package main
 
 import (
+	"go/constant"
 	"fmt"
 	"go/token"
 	"go/types"
@@ -812,4 +813,246 @@ func contradictoryLits(lits []Lit) bool {
 		}
 	}
 	return false
+}
+
+// R03.17 the walk along a path never steps onto a member that is not there
+func ruleR03_17(w *World, r *Report) {
+	u := w.Client()
+	r.Rule("R03.17", "in getTargetByPaths the member found for a path segment is tested for nil before anything is asked of it - on every way from the lookup to the next use, including the way round the loop to the next segment", 2)
+	fn := u.Fn(pOrda, "jsonPrimitive", "getTargetByPaths")
+	if fn == nil {
+		r.Lost("jsonPrimitive.getTargetByPaths")
+		return
+	}
+	var lookups []*ssa.Call
+	for _, c := range callsNamed(fn, "getAsJSONType", "getJSONType") {
+		if call, ok := c.(*ssa.Call); ok && call.Parent() == fn {
+			lookups = append(lookups, call)
+		}
+	}
+	if len(lookups) == 0 {
+		r.Lost("getTargetByPaths: the member lookups (getAsJSONType, getJSONType)")
+		return
+	}
+	// values that may hold a lookup result: the lookup itself and the phis it flows into
+	carries := func(v ssa.Value, l *ssa.Call) bool {
+		seen := map[ssa.Value]bool{}
+		var walk func(x ssa.Value, d int) bool
+		walk = func(x ssa.Value, d int) bool {
+			x = stripIface(x)
+			if x == ssa.Value(l) {
+				return true
+			}
+			if seen[x] || d > 8 {
+				return false
+			}
+			seen[x] = true
+			if ph, ok := x.(*ssa.Phi); ok {
+				for _, e := range ph.Edges {
+					if walk(e, d+1) {
+						return true
+					}
+				}
+			}
+			return false
+		}
+		return walk(v, 0)
+	}
+	n := 0
+	for _, l := range lookups {
+		forEachOwnInstr(fn, func(in ssa.Instruction) {
+			use, ok := in.(*ssa.Call)
+			if !ok || !use.Call.IsInvoke() || use == l || !carries(use.Call.Value, l) {
+				return
+			}
+			if !reachableFrom(l, use) {
+				return
+			}
+			n++
+			paths, okp := reachingLitsOwn(fn, l.Block(), use)
+			good := okp && len(paths) > 0
+			for _, p := range paths {
+				g := false
+				for _, lit := range p {
+					if lit.Kind != "cmp" || lit.Op != token.NEQ {
+						continue
+					}
+					x, y := lit.X, lit.Y
+					if c, isC := x.(*ssa.Const); isC && c.Value == nil {
+						x, y = y, x
+					}
+					if c, isC := y.(*ssa.Const); isC && c.Value == nil && carries(x, l) {
+						g = true
+					}
+				}
+				good = good && g
+			}
+			r.Check(good, "getTargetByPaths/"+calleeName(l)+" result used by "+calleeName(use), u.Pos(use.Pos()), "under a nil test of the member on every way from the lookup",
+				"the member found by "+calleeName(l)+" reaches "+calleeName(use)+" on a way that did not test it for nil (for instance round the loop to the next path segment): a path whose intermediate segment names a missing member panics in GetByPath / Patch instead of returning an error, and inside a patch of several operations the panic commits what was applied so far")
+		})
+	}
+	if n < 2 {
+		r.Lost(fmt.Sprintf("getTargetByPaths: uses of a looked-up member (found %d)", n))
+	}
+}
+
+// R13.8 the response for a registered key is applied, whatever it says
+func ruleR13_8(w *World, r *Report) {
+	u := w.Client()
+	r.Rule("R13.8", "syncPushPullPacks hands every response pack whose key is registered to that datatype's ApplyPushPullPack; nothing else decides whether it is applied (the answer to a subscription carries the DUID of the existing datatype, not the one the replica chose)", 1)
+	fn := u.Fn(pCManagers, "DatatypeManager", "syncPushPullPacks")
+	if fn == nil {
+		r.Lost("DatatypeManager.syncPushPullPacks")
+		return
+	}
+	n := 0
+	for _, c := range callsNamed(fn, "ApplyPushPullPack") {
+		n++
+		paths, okp := reachingLits(fn, nil, c.(ssa.Instruction))
+		good := okp && len(paths) > 0
+		extra := ""
+		for _, p := range paths {
+			for _, l := range p {
+				switch {
+				case l.Kind == "ok":
+				case l.Kind == "cmp" && (isNilErrLit(l) || isRangeLoopLit(l)):
+				default:
+					good = false
+					extra = litsString([]Lit{l})
+				}
+			}
+		}
+		r.Check(good, "syncPushPullPacks/every response of a registered key is applied", u.Pos(c.Pos()), "applied under the registry lookup only",
+			"a response is applied only under "+extra+": the answer to a subscribe (it carries the DUID of the existing datatype) or any other response that fails the extra test is dropped without an error - the replica never receives the state it subscribed to and never reports the transition to subscribed")
+	}
+	if n == 0 {
+		r.Lost("syncPushPullPacks: ApplyPushPullPack")
+	}
+}
+
+// isNilErrLit: "x == nil" / "x != nil" on a value of an error-like interface type.
+func isNilErrLit(l Lit) bool {
+	if l.Kind != "cmp" || (l.Op != token.EQL && l.Op != token.NEQ) {
+		return false
+	}
+	x, y := l.X, l.Y
+	if c, ok := x.(*ssa.Const); ok && c.Value == nil {
+		x, y = y, x
+	}
+	c, ok := y.(*ssa.Const)
+	if !ok || c.Value != nil {
+		return false
+	}
+	_, isIface := x.Type().Underlying().(*types.Interface)
+	return isIface && strings.Contains(x.Type().String(), "rror")
+}
+
+// R16.13 a reply channel is never closed
+func ruleR16_13(w *World, r *Report) {
+	u := w.Server()
+	if u == nil {
+		return
+	}
+	r.Rule("R16.13", "the reply channel of a push-pull handler is sent on exactly once and never closed: ProcessPushPull selects over the reply channels of all packs of a request and keeps a channel that has answered in the set, where a closed channel is ready for ever", 1)
+	n := 0
+	for _, fn := range u.ordaFuncs(func(p string) bool { return p == pService }) {
+		forEachOwnInstr(fn, func(in ssa.Instruction) {
+			if mk, ok := in.(*ssa.MakeChan); ok && strings.HasSuffix(mk.Type().String(), "model.PushPullPack") {
+				n++
+				r.OK(fnName(fn)+"/reply channel", u.Pos(mk.Pos()), "created here")
+			}
+			var cc *ssa.CallCommon
+			switch x := in.(type) {
+			case *ssa.Call:
+				cc = &x.Call
+			case *ssa.Defer:
+				cc = &x.Call
+			case *ssa.Go:
+				cc = &x.Call
+			}
+			if cc == nil {
+				return
+			}
+			if b, ok := cc.Value.(*ssa.Builtin); ok && b.Name() == "close" && len(cc.Args) == 1 && strings.HasSuffix(cc.Args[0].Type().String(), "model.PushPullPack") {
+				n++
+				r.Bad(fnName(fn)+"/reply channel closed", u.Pos(in.Pos()), "a reply channel is closed: the collector of ProcessPushPull takes the closed channel for another answer, ends before the other packs of the request have answered, and their handlers block for ever on their send with the datatype lock held")
+			}
+		})
+	}
+	if n == 0 {
+		r.Lost("server/service: creation of a reply channel")
+	}
+}
+
+// R18.8 the notifier does not give every server process the same MQTT client id
+func ruleR18_8(w *World, r *Report) {
+	u := w.Server()
+	if u == nil {
+		return
+	}
+	r.Rule("R18.7", "the MQTT options of the server's notifier set no client id that is the same for every server process (built from constants only): a broker lets a second connection with the same id take over the first, whose notifications are then dropped without an error", 1)
+	fn := u.Fn(ordaPrefix+"/server/notification", "", "NewNotifier")
+	if fn == nil {
+		r.Lost("notification.NewNotifier")
+		return
+	}
+	bad := ""
+	for _, c := range callsNamed(fn, "SetClientID") {
+		a := c.Common().Args
+		if len(a) == 0 {
+			continue
+		}
+		perProcess := false
+		for tag := range origins(a[len(a)-1]) {
+			if strings.HasPrefix(tag, "call:") && !strings.Contains(tag, "Sprintf") && !strings.Contains(tag, "Sprint") {
+				perProcess = true
+			}
+			if strings.HasPrefix(tag, "param:") || strings.HasPrefix(tag, "invoke:") {
+				perProcess = true
+			}
+		}
+		if !perProcess {
+			bad = u.Pos(c.Pos())
+		}
+	}
+	r.Check(bad == "", "NewNotifier/client id", u.Pos(fn.Pos()), "no constant client id", "the notifier connects with a client id built from constants (at "+bad+"): two server processes of one build throw each other off the broker, and the pushes one of them commits are never announced")
+}
+
+// R09.13 what a replica received is not queued for push
+func ruleR09_13(w *World, r *Report) {
+	u := w.Client()
+	r.Rule("R09.13", "ExecuteRemoteTransactionWithCtx ends the unit and executes its operations as not local (the literal false): a received unit is never appended to the replica's own push buffer", 2)
+	fn := u.Fn(pDatatypes, "TransactionDatatype", "ExecuteRemoteTransactionWithCtx")
+	if fn == nil {
+		r.Lost("TransactionDatatype.ExecuteRemoteTransactionWithCtx")
+		return
+	}
+	n := 0
+	var visit func(g *ssa.Function)
+	visit = func(g *ssa.Function) {
+		for _, c := range callsNamed(g, "EndTransaction", "SentenceInTx") {
+			a := c.Common().Args
+			if len(a) == 0 {
+				continue
+			}
+			n++
+			last := a[len(a)-1]
+			k, isC := last.(*ssa.Const)
+			good := isC && k.Value != nil && k.Value.Kind() == constant.Bool && !constant.BoolVal(k.Value)
+			r.Check(good, "ExecuteRemoteTransactionWithCtx/"+calleeName(c)+" isLocal", u.Pos(c.Pos()), "isLocal = false",
+				calleeName(c)+" is told isLocal = "+exprName(last)+" for a received unit: when it is true the received operations are appended to the replica's own push buffer - foreign operations are pushed again and the positions of the replica's own pending operations shift")
+		}
+	}
+	for _, g := range withClosures(fn) {
+		visit(g)
+	}
+	if n < 2 {
+		r.Lost(fmt.Sprintf("ExecuteRemoteTransactionWithCtx: EndTransaction and SentenceInTx (found %d)", n))
+	}
+}
+
+// isRangeLoopLit: the continuation test of a range loop (an integral comparison on the hidden loop index).
+func isRangeLoopLit(l Lit) bool {
+	lc, ok := canonLinCmp(l)
+	return ok && strings.Contains(lc.String(), "rangeindex")
 }
